@@ -14,6 +14,7 @@
 //!                                     ops: L+  L-<id>  F0 F1  a!ep!tsi r!ep!tsi A!ep R!ep
 //!                                          pE!ep!tsi (TOI 0, no EXT_FDT: Err when processed)  pK!ep!tsi
 //!                                          (same with close-object flag: Ok)  pC!ep!tsi (close-session)
+//!                                          pD!ep!tsi (close-session flag on a damaged FDT packet: Err, session ends)
 //!                                          pX!ep (garbage)  C (cleanup)  Z<ms> (sleep, decimal)  Y (spin until
 //!                                          session time-out after the middle of the pushes so far)
 //!                                     events: id<l> (add_listener result)  o<l>!key  c<l>!key
@@ -204,6 +205,23 @@ fn sys_now() -> SystemTime {
 /// synthetic packets: TOI 0 without EXT_FDT. kind 'E' plain (Receiver::push -> Err), 'K' close-object
 /// flag (-> Ok), 'C' close-session flag.
 fn probe_pkt(kind: char, tsi: u64) -> Vec<u8> {
+    if kind == 'D' {
+        // close-session flag on a packet whose processing fails: a real one-packet FDT instance whose
+        // XML is damaged (Receiver::push -> Err "Fail to decode FDT"); the session must end all the same
+        let ep = UDPEndpoint::new(None, "224.0.0.1".to_string(), 3000);
+        let oti = flute::core::Oti::new_no_code(1400, 64);
+        let mut sender = flute::sender::Sender::new(ep, tsi, &oti, &Default::default());
+        sender.publish(sys_now()).expect("publish");
+        let mut pkt = sender.read(sys_now()).expect("FDT packet");
+        let n = pkt.len();
+        for b in pkt[n - 30..].iter_mut() {
+            *b = b'<';
+        }
+        pkt[1] |= 0x02;
+        let p = flute::core::alc::parse_alc_pkt(&pkt).expect("probe parses");
+        assert!(p.lct.tsi == tsi && p.lct.close_session && p.lct.toi == 0);
+        return pkt;
+    }
     let mut pkt = flute::verif_hooks::alc::new_alc_pkt_close_session(&0u128, tsi);
     pkt[1] &= !0x03;
     match kind {
@@ -652,8 +670,10 @@ fn gen_m(rng: &mut Rng, timed: bool) -> String {
             format!("pE!{}!{:x}", ep, tsi)
         } else if r < 68 {
             format!("pK!{}!{:x}", ep, tsi)
-        } else if r < 80 {
+        } else if r < 76 {
             format!("pC!{}!{:x}", ep, tsi)
+        } else if r < 80 {
+            format!("pD!{}!{:x}", ep, tsi)
         } else if r < 82 {
             format!("pX!{}", ep)
         } else if r < 86 {
